@@ -46,7 +46,7 @@ def one(job):
     rng = random.Random(seed)
     d = common.scratch_dir("c18")
     try:
-        two_axes = rng.random() < 0.5
+        two_axes = rng.random() < 0.5 or variant % 4 == 1     # the second job of every four always has two axes (and omits default positions)
         # `nested`: every master keeps its drawings in a directory of the SAME leaf name (regular/svg, bold/svg, other/svg), the common
         # project layout; with three masters the intermediates of the second and third must still be kept apart
         n_masters = 3 if (two_axes or nested) else rng.choice([2, 3])
@@ -77,8 +77,13 @@ def one(job):
         toml.append('[axis.wght]\nname = "Weight"\ndefault = 400')
         if two_axes:
             toml.append('[axis.wdth]\nname = "Width"\ndefault = 100')
-        for nm, loc in zip(names, locs):
-            toml.append(f'[master.{nm}]\nstyle_name = "{nm.title()}"\nsrcs = ["{nm}{sub}/*.svg"]\n[master.{nm}.position]\n' + "\n".join(f"{k} = {v}" for k, v in loc.items()))
+        # `omit`: a non-default master states only the axes on which it differs from the default (an omitted axis means that axis' default,
+        # whatever earlier masters said about it)
+        omit = two_axes and variant % 2 == 1
+        defaults = {"wght": 400, "wdth": 100}
+        for mi, (nm, loc) in enumerate(zip(names, locs)):
+            written = {k: v for k, v in loc.items() if not (omit and mi > 0 and v == defaults[k])}
+            toml.append(f'[master.{nm}]\nstyle_name = "{nm.title()}"\nsrcs = ["{nm}{sub}/*.svg"]\n[master.{nm}.position]\n' + "\n".join(f"{k} = {v}" for k, v in written.items()))
         (d / "vf.toml").write_text("\n".join(toml) + "\n")
         rc, out = cli.nanoemoji(["--build_dir", d / "build", d / "vf.toml"], d)
         vfp = d / "build" / "VF.ttf"
